@@ -982,3 +982,86 @@ Proof.
       symmetry. apply F.
     + destruct o; reflexivity.
 Qed.
+
+(* ---------- retained versions: which they are, and that a restart does not touch them ---------- *)
+
+(* the rotation rule releases at most the two versions it names; every other version is retained *)
+Lemma rotate_retains r lastv sv v :
+  v <> lastv - recent r -> v <> lastv - recent r - cycles r * every r ->
+  rotate r lastv sv !! v = sv !! v.
+Proof.
+  intros H1 H2. unfold rotate.
+  destruct (0 <? lastv - recent r); [|reflexivity].
+  repeat match goal with |- context [if ?b then _ else _] => destruct b end;
+    rewrite ?lookup_delete_ne by (intros E; lia); reflexivity.
+Qed.
+
+(* a commit changes the saved versions only at the new version and the (at most two) released ones *)
+Lemma commit_retains s v :
+  v <> version s + 1 -> v <> version s - recent (rot s) ->
+  v <> version s - recent (rot s) - cycles (rot s) * every (rot s) ->
+  saved (step s BlockCommit).2 !! v = saved s !! v.
+Proof.
+  intros H0 H1 H2. cbn [step]. unfold do_commit. cbn [snd saved].
+  assert (E : forall x, saved (do_write x) = saved x /\ version (do_write x) = version x /\ rot (do_write x) = rot x).
+  { intros x. unfold do_write. destruct (fold_left flush_step (okvs (cache x)) (tree x, wlog x)). auto. }
+  destruct (E s) as (Es & Ev & Er). rewrite Es, Ev, Er.
+  rewrite rotate_retains by assumption. apply lookup_insert_ne. lia.
+Qed.
+
+(* only a block commit changes the saved versions *)
+Lemma saved_only_commit s o : o <> BlockCommit -> saved (step s o).2 = saved s.
+Proof.
+  intros Ho. destruct o; try congruence; cbn [step].
+  - unfold do_get. destruct (match sess s with Some o => oget o k | None => None end); [reflexivity|].
+    destruct (cache_get s k) as [[v|] g]; reflexivity.
+  - unfold do_set. destruct (sess s); [reflexivity|]. destruct (gas s) as [g|]; [|reflexivity].
+    destruct (consume_strict g 1 WRITEFLAT) as [[|] g1]; reflexivity.
+  - unfold do_exists. destruct (match sess s with Some o => oget o k | None => None end); [reflexivity|].
+    destruct (cache_exists s k) as [[|] g]; [|reflexivity].
+    destruct (cache_get (with_gas s g) k) as [[v|] g']; reflexivity.
+  - unfold do_delete. destruct (sess s); [reflexivity|]. destruct (gas s) as [g|]; [|reflexivity].
+    destruct (consume_strict g 1 DELETEGAS) as [[|] g1]; reflexivity.
+  - reflexivity.
+  - destruct (sess s); reflexivity.
+  - reflexivity.
+  - unfold do_write. destruct (fold_left flush_step (okvs (cache s)) (tree s, wlog s)). reflexivity.
+  - reflexivity.
+  - reflexivity.
+  - reflexivity.
+Qed.
+
+(* every versioned read — of a retained version or a released one — answers the same before and
+   after any run without a block commit, in particular before and after a reopen *)
+Theorem versioned_reads_stable ops : forall s v k, Forall (fun o => o <> BlockCommit) ops ->
+  (step (final s ops) (GetVersioned v k)).1 = (step s (GetVersioned v k)).1 /\
+  version (final s ops) = version s.
+Proof.
+  induction ops as [|o ops IH]; intros s v k Hf; [split; reflexivity|].
+  inversion Hf as [|? ? Ho Hf']; subst. rewrite final_cons.
+  destruct (IH (step s o).2 v k Hf') as [E1 E2]. rewrite E1, E2. cbn [step fst].
+  rewrite (saved_only_commit s o Ho). split; [reflexivity|].
+  destruct o; try congruence; cbn [step].
+  - unfold do_get. destruct (match sess s with Some o => oget o k0 | None => None end); [reflexivity|].
+    destruct (cache_get s k0) as [[v0|] g]; reflexivity.
+  - unfold do_set. destruct (sess s); [reflexivity|]. destruct (gas s) as [g|]; [|reflexivity].
+    destruct (consume_strict g 1 WRITEFLAT) as [[|] g1]; reflexivity.
+  - unfold do_exists. destruct (match sess s with Some o => oget o k0 | None => None end); [reflexivity|].
+    destruct (cache_exists s k0) as [[|] g]; [|reflexivity].
+    destruct (cache_get (with_gas s g) k0) as [[v0|] g']; reflexivity.
+  - unfold do_delete. destruct (sess s); [reflexivity|]. destruct (gas s) as [g|]; [|reflexivity].
+    destruct (consume_strict g 1 DELETEGAS) as [[|] g1]; reflexivity.
+  - reflexivity.
+  - destruct (sess s); reflexivity.
+  - reflexivity.
+  - unfold do_write. destruct (fold_left flush_step (okvs (cache s)) (tree s, wlog s)). reflexivity.
+  - reflexivity.
+  - reflexivity.
+  - reflexivity.
+Qed.
+
+Corollary reopen_keeps_versions s v k :
+  (step (step s Reopen).2 (GetVersioned v k)).1 = (step s (GetVersioned v k)).1 /\
+  saved (step s Reopen).2 = saved s /\ version (step s Reopen).2 = version s /\
+  tree (step s Reopen).2 = default ∅ (saved s !! version s).
+Proof. repeat split; reflexivity. Qed.
